@@ -249,12 +249,12 @@ static bool ask(const PDU& req, const Bytes& pkt, bool& threw) {
 static bool is_zero(const u8* a, size_t n) { for (size_t i = 0; i < n; ++i) if (a[i]) return false; return true; }
 static bool kf_destunreach(const Rep& p) { return !p.v6 && l4proto(p) == 1 && p.itype == 3 && enc_l4(p).size() >= 24; }   // trigger shape of the listed IPv4 finding
 
-static void pairs_case(long, Rng& rng) {
+static void pairs_case(long idx, Rng& rng) {
     Req q; gen_req(rng, q);
     describe_case(show(q));
     std::string stack = l2name(q) + "/" + l3name(q) + "/" + l4name[q.l4];
     cnt("shape:" + stack); cnt(std::string("l4:") + l4name[q.l4]);
-    { u64 h = fnv(q.src, 16); h = fnv(q.dst, 16, h); h = fnv(q.esrc, 6, h); h = mix(h, (u64)q.sport << 48 | (u64)q.dport << 32 | (u64)q.id << 16 | q.seq); sig(mix(h, fnv(stack) + q.dnsid + q.vid[0] * 7919u)); }
+    { u64 h = fnv(q.src, 16); h = fnv(q.dst, 16, h); h = fnv(q.esrc, 6, h); h = mix(h, (u64)q.sport << 48 | (u64)q.dport << 32 | (u64)q.id << 16 | q.seq); if (idx < 1000000) sig(mix(h, fnv(stack) + q.dnsid + q.vid[0] * 7919u)); }
     std::unique_ptr<PDU> req(build_request(q));
     if (!q.v6 && !q.cacher) { const IP* ip = req->find_pdu<IP>(); if (!ip || ip->header_size() != 20u + 4u * q.optw) { violation("harness/ip-header-size", "request IP header size is not 20+4*words"); return; } }
     if (q.ser_first) { try { req->serialize(); cnt("br:request-serialized-first"); } catch (...) { cnt("obs:request-serialize-threw"); } }
